@@ -14,6 +14,7 @@ from .common import (sample_constraints, sample_sched, decorate, expected_batche
                      sample_prefix, second_dataset, run_generic_op, apply_layout, sample_layouts)
 
 PROPERTY = "C03"
+KEY_EVENT = "STEP"     # the seam this scenario depends on: it must fire somewhere in a batch of runs
 RULE = ("one run = one seeded fit (sparse families: optionally followed by a short path) of a sampled family x GEMINI x solver "
         "x batch size x shapes x optional mlcl decoration, under a simulator-owned batch schedule and a buggified optimiser "
         "(real/scaled/teleport); non-trivial = at least one optimiser step was judged by the gradient oracle; distinct = "
@@ -295,7 +296,7 @@ def execute(record):
                     # whether fit/path complete is not this property's statement (C04/C07/C17)
                     res.probe("op_raised:" + op["op"] + ":" + outcome.split(":")[1])
         if log.counts.get("STEP", 0) == 0 and not any(k.startswith("op_raised") or k.endswith("_crashed") for k in res.probes):
-            raise HarnessError("optimiser seam never fired")
+            res.probe("seam_silent_in_run")   # decided over the whole batch by the runner (KEY_EVENT)
     except SimBudget:
         res.probe("budget_exhausted")
     except HarnessError as e:
